@@ -2,6 +2,8 @@
 from lib.facts import norm, path_matches, origin_is_call, Site
 from lib.rules import strip_origin, arg_path, who_calls, field_writes, writers_of_field, fmt_path, edges_from_call
 
+from lib.rules import owned_by  # noqa: E402
+
 META = dict(
     level='other',
     explanation=(
@@ -63,8 +65,8 @@ def rule_single_write_scope(ctx):
     ctx.floor('K5', 'write accesses to PayloadHistory.{deltas,current}', len(ws), 3)
     allowed = ['payload::history::SharedHistory::update', 'payload::history::PayloadHistory::push_delta']
     for b, site, how, f in ws:
-        root = b.nid.split('::{')[0]
-        ctx.check(any(path_matches(root, a) for a in allowed), 'K5', 'A-writer:%s<-%s' % (f, b.nid),
+        ok, who = owned_by(ctx, b.nid, allowed)
+        ctx.check(ok, 'K5', 'A-writer:%s<-%s' % (f, who if ok and who != b.nid.split('::{')[0] else b.nid),
                   'PayloadHistory.%s written (%s) in %s' % (f, how, b.nid),
                   'PayloadHistory.%s is written (%s) in %s: the atomic set {deltas,current} must only be written inside '
                   'SharedHistory::update' % (f, how, b.nid), loc=site.loc())
